@@ -1,0 +1,39 @@
+//go:build verif
+
+package actor
+
+// Contracts for property C05, continued: how a worker obtains its next actor.
+
+//@ property C05
+
+//@ spec func locals_wf(rq *readyQueue) bool = len(rq.locals) >= 1 && (forall j int :: 0 <= j && j < len(rq.locals) ==> rq.locals[j] != nil && lq_wf(rq.locals[j])) && (forall a int, b int :: 0 <= a && a < b && b < len(rq.locals) ==> rq.locals[a] != rq.locals[b])
+
+// stealing: victim and destination are both rings of this queue (what stealHalf
+// moves stays reachable by a worker), and the rings stay well formed
+//@ func (*readyQueue).trySteal(rq, workerID)
+//@   also C02
+//@   requires locals_wf(rq) && 0 <= workerID && workerID < len(rq.locals)
+//@   loop 1 invariant walking-the-siblings: 1 <= i && i <= n && n == len(rq.locals) && own == rq.locals[workerID] && rq.locals == old(rq.locals)
+//@   loop 1 invariant rings-stay-well-formed: locals_wf(rq)
+//@   at call 1 of (*localQueue).stealHalf assert moves-the-rest-into-a-ring-of-this-queue: (exists k int :: 0 <= k && k < len(rq.locals) && rq.locals[k] == arg1) && (exists k int :: 0 <= k && k < len(rq.locals) && rq.locals[k] == arg0)
+//@   ensures single-worker-never-steals: len(rq.locals) == 1 ==> result == nil
+//@   ensures rings-stay-well-formed: locals_wf(rq)
+//@   modifies localQueue.buf, localQueue.head, localQueue.tail, localQueue.size, localQueue.sizeAtomic, elems(schedulable)
+
+// take: own ring first, then the global ring, then a steal, then park. tk_last is
+// the item most recently yielded by any of the four sources: the worker goes round
+// again only when it is nil (nothing yielded is ever dropped), and what is returned
+// is exactly it; "no more work" is reported only when the queue is closed.
+//@ ghost local tk_last schedulable
+//@ func (*readyQueue).take(rq, workerID)
+//@   also C02
+//@   requires rq_wf(rq) && locals_wf(rq) && 0 <= workerID && workerID < len(rq.locals)
+//@   ghost entry tk_last = nil
+//@   loop 1 invariant keeps-the-queue-well-formed: rq_wf(rq) && locals_wf(rq) && rq.locals == old(rq.locals)
+//@   loop 1 invariant never-drops-a-yielded-actor: tk_last == nil
+//@   at call 1 of (*localQueue).popFront ghost tk_last = result
+//@   at call 1 of (*readyQueue).popGlobal ghost tk_last = result
+//@   at call 1 of (*readyQueue).trySteal ghost tk_last = result
+//@   at call 1 of (*readyQueue).parkAndTake ghost tk_last = result0
+//@   ensures returns-what-a-source-yielded: result1 ==> result0 != nil && result0 == tk_last
+//@   ensures gives-up-only-when-closed: !result1 ==> result0 == nil && tk_last == nil && rq.closed
